@@ -77,6 +77,7 @@ func c19Scenario(c *fw.Ctx, sp c19Spec) schedScenario {
 		var drainCalled, drainReturned = map[string]int64{}, map[string]int64{}
 		var startReturned = map[string]int64{}
 		var cancelStep int64 = -1
+		leftAtDrainReturn := -1 // messages in the POP3 client's mailbox at the moment POP3 Drain returned
 		joinReturned, hubReturned := false, false
 		var finalCheck func() [][2]string
 		var finalProbs [][2]string
@@ -154,6 +155,13 @@ func c19Scenario(c *fw.Ctx, sp c19Spec) schedScenario {
 						mu.Lock()
 						drainReturned[p] = vsched.StepNo()
 						mu.Unlock()
+						if p == "pop3" {
+							// what main would leave behind if it exited now
+							ms, _ := s.StoreH.Store.GetMessages("u")
+							mu.Lock()
+							leftAtDrainReturn = len(ms)
+							mu.Unlock()
+						}
 					}})
 				}
 				// TLS scenario: shutdown is requested no earlier than the moment the client is about
@@ -364,6 +372,9 @@ func c19Scenario(c *fw.Ctx, sp c19Spec) schedScenario {
 							}
 							if len(cl.replies) != nrep || !strings.HasPrefix(cl.replies[nrep-1], "+OK") || len(ms) != 0 {
 								probs = append(probs, [2]string{"pop3-deletes-not-applied", fmt.Sprintf("client %d marked message 1 and sent QUIT during shutdown: replies %v, mailbox u still holds %d messages", i, cl.replies, len(ms))})
+							} else if leftAtDrainReturn > 0 {
+								// the process exits when the drain calls have returned: what is not applied by then is lost
+								probs = append(probs, [2]string{"pop3-deletes-pending-at-drain-return", fmt.Sprintf("client %d's session was open before Drain was called, marked message 1 and sent QUIT: when POP3 Drain returned, mailbox u still held %d message(s) - the deletion was applied only afterwards (main exits as soon as the drain calls return)", i, leftAtDrainReturn)})
 							}
 						}
 						// (2) Drain returns only after the session has ended
